@@ -21,3 +21,88 @@ PROPS["C14"] = dict(
                  "null receivers of creating element matchers are outside the tree model (class 'unmodelled', counted)"],
     design_ref="DESIGN.md §5 C14",
 )
+
+COMMON_NOTE = ("Trusted: Lean 4.33 kernel (axioms audited per theorem: subset of propext/Classical.choice/Quot.sound); the T-gen translator "
+               "(extract/main.go) for regenerated tables; the correspondence harness and its generators; the whole-build oracle is a search, "
+               "never a substitute for a theorem. ")
+
+PROPS["C03"] = dict(
+    title="Name references follow every rename",
+    modules=["Kust.Props.C03"],
+    theorems=["Kust.C03.rename_records", "Kust.C03.storePrev_origName", "Kust.C03.rules_write_no_identity",
+              "Kust.C03.essential_rules_present", "Kust.Res.layers_no_panic", "Kust.Res.layers_good"],
+    components=["res.layers"],
+    oracle=True,
+    n_corr={"quick": 3000, "thorough": 30000}, n_oracle={"quick": 600, "thorough": 6000},
+    technique="Lean 4 proof (previous-id bookkeeping invariant over any layer chain; decide over the regenerated rule table) + Go/Lean correspondence of the renaming plugins + reference-edge oracle on whole builds",
+    level_text="Theorems: through any number of namespace/prefix/suffix layers the loaded name stays the first recorded name (rename_records), "
+               "the bookkeeping never panics on named resources, no rule of the regenerated table writes an identity field and the rules the property "
+               "names are present. The sieve selectReferral is not modelled: reference edges of generated graphs are checked on real whole builds.",
+    level_note=COMMON_NOTE + "Not modelled (oracle only): nameref.Filter/selectReferral, hash renaming, layered accumulation.",
+    assumptions=["IsClusterScoped is a parameter cs", "selectReferral and the accumulation order are covered by the whole-build edge oracle only"],
+    design_ref="DESIGN.md §5 C03",
+)
+PROPS["C07"] = dict(
+    title="Output is well-formed, identity-unique, free of bookkeeping, and a fixpoint",
+    modules=["Kust.Props.C07"],
+    theorems=["Kust.C07.out_ids_unique", "Kust.C07.append_refuses_duplicate", "Kust.C07.out_has_kind_name", "Kust.C07.renaming_never_panics",
+              "Kust.C07.strip_removes", "Kust.C07.strip_keeps", "Kust.C07.annotation_keys_covered", "Kust.C07.core_keys_stripped"],
+    components=["res.append", "res.layers"],
+    oracle=True,
+    n_corr={"quick": 3000, "thorough": 30000}, n_oracle={"quick": 300, "thorough": 4000},
+    technique="Lean 4 proof (Append uniqueness invariant, named-resource invariant, stripped-key coverage by decide over regenerated tables) + correspondence + fixpoint/rebuild oracle on whole builds",
+    level_text="Theorems: any map built by successful Appends has pairwise non-Equals ids; named resources stay named through any layer chain; every "
+               "annotation-key constant the translator finds in the build code is stripped or reviewed. The byte-level fixpoint and re-parse claims rest "
+               "on go-yaml and are decided by the oracle (second build over the emitted text).",
+    level_note=COMMON_NOTE + "go-yaml emit/parse stability is not modelled (oracle only).",
+    assumptions=["emit/parse are third-party (oracle only)", "patches that rewrite identity fields are outside the property (finding C12-K1)"],
+    design_ref="DESIGN.md §5 C07",
+)
+PROPS["C09"] = dict(
+    title="The namespace directive moves every namespaced resource and nothing else",
+    modules=["Kust.Props.C09"],
+    theorems=["Kust.C09.ns_total", "Kust.C09.ns_empty_noop", "Kust.C09.ns_outermost_wins", "Kust.C09.ns_collision_is_error",
+              "Kust.C09.scope_table_sane", "Kust.C09.scope_table_expected"],
+    components=["res.layers"],
+    oracle=True,
+    n_corr={"quick": 3000, "thorough": 30000}, n_oracle={"quick": 500, "thorough": 5000},
+    technique="Lean 4 proof (namespace step, outermost-wins induction over layers, collision re-check invariant, decide over regenerated scope table) + plugin correspondence + per-resource oracle on whole builds",
+    level_text="Theorems for every layer chain and resource: a not-cluster-scoped resource ends in the outermost directive's namespace, a cluster-scoped one is "
+               "untouched, a successful transformer run leaves pairwise distinct ids (collisions are errors). Subjects of role bindings are checked by the oracle.",
+    level_note=COMMON_NOTE + "roleBindingHack / nameref subject fixing are oracle-only.",
+    assumptions=["IsCertainlyClusterScoped is a parameter cs (regenerated table checked by decide)"],
+    design_ref="DESIGN.md §5 C09",
+)
+PROPS["C11"] = dict(
+    title="Kustomizations compose transparently (wrapping, relocation, reordering)",
+    modules=["Kust.Props.C11"],
+    theorems=["Kust.C11.legacy_order_input_independent", "Kust.C11.legacy_sort_idempotent", "Kust.C11.order_lists_wellformed",
+              "Kust.C11.affixName_eq", "Kust.C11.affix_accumulation", "Kust.C11.skip_list_expected", "Kust.sort_perm_invariant", "Kust.mergeSort_spec"],
+    components=["res.legacysort", "res.layers"],
+    oracle=True,
+    n_corr={"quick": 2000, "thorough": 20000}, n_oracle={"quick": 150, "thorough": 2000},
+    technique="Lean 4 proof (any sorting function is permutation-invariant under the transliterated legacy comparator; affix accumulation by induction over layers) + comparator correspondence through real legacy-sorted builds + wrap/move/permute oracle",
+    level_text="Theorems: for every sorting function meeting the sort specification and every permutation of an id list with distinct sort keys the legacy "
+               "order is the same list; names accumulate as P_outer..P_inner+name+S_inner..S_outer for any number of layers. wrap/move equalities are "
+               "decided by the oracle on whole builds (loader and accumulation are not modelled).",
+    level_note=COMMON_NOTE + "Go's sort is specified (SortSpec), not modelled; antisymmetry of the comparator on the ids is a hypothesis (checked by decide on samples).",
+    assumptions=["distinct ids have distinct legacy sort keys (AntisymmOn)", "wrap/move transparency rests on the oracle"],
+    design_ref="DESIGN.md §5 C11",
+)
+PROPS["C12"] = dict(
+    title="Malformed input yields an error, never a panic, exit or hang",
+    modules=["Kust.Props.C12", "Kust.Lemmas.Res"],
+    theorems=["Kust.C12.pathGet_no_panic", "Kust.C12.lookup_no_panic", "Kust.C12.fieldSetter_no_panic", "Kust.C12.fieldClearer_no_panic",
+              "Kust.C12.elementIndexer_ne_panic", "Kust.C12.Witness.elementIndexerOld_panics", "Kust.Res.prevIds_no_panic",
+              "Kust.Res.layers_no_panic", "Kust.Res.Witness.nameless_prevIds_panics"],
+    components=["fns.lookup", "fns.setelem", "res.layers"],
+    oracle=True,
+    n_corr={"quick": 2000, "thorough": 20000}, n_oracle={"quick": 1500, "thorough": 20000},
+    technique="Lean 4 proof (explicit panic outcomes in the models; no_panic theorems; totality = termination) + correspondence incl. malformed stream + structural/byte mutation search in worker processes (recover, timeout, exit detection)",
+    level_text="PARTIAL by nature: theorems show the modelled partial functions (PathGetter, field/element setters, previous-id bookkeeping) never reach a panic "
+               "outcome for any input, with kernel-checked witnesses for the repaired and the recorded defects; everything else (go-yaml, json-patch, the rest "
+               "of the build) is covered only by the mutation search, and the time bound is measured, not proved.",
+    level_note=COMMON_NOTE + "Third-party parsers and the Go runtime are outside the model; time bound measured per case.",
+    assumptions=["panic-freedom of unmodelled code is searched, not proved"],
+    design_ref="DESIGN.md §5 C12",
+)
